@@ -69,6 +69,18 @@ def run_shard(shard, tier, seed, wd, res):
             vals += [x, sq, (a * a % Q, 0), (a * a * z % Q, 0), (0, a), (0, b * b % Q), (0, b * b * z % Q),
                      F.f2_mul(sq, (1, 1)) if F.f2_legendre((1, 1)) == -1 else F.f2_mul(sq, (z, 1)),
                      (a, a), (a, (-a) % Q)]
+        if part == "grid":
+            # components at limb boundaries (also in the Montgomery domain) against small / odd / even partners:
+            # sgn0, negate_if and the order only (cheap), for "is the first coefficient zero?" style logic
+            LB = G.field_boundary(Q, 381)
+            for c0 in LB:
+                for c1 in (0, 1, 2, Q - 1, Q - 2, rng.randrange(Q) | 1, rng.randrange(Q) & ~1):
+                    for x in ((c0, c1), (c1, c0)):
+                        tx = ("q2", x)
+                        s.op("fq2.sgn0", tx)
+                        s.op("fq2.negate_if", tx, V.n(1))
+                        s.op("fq2.cmp", tx, ("q2", F.f2_neg(x)))
+                        s.op("fq2.is_zero", tx)
         for x in vals:
             tx = ("q2", x)
             s.op("fq2.sqrt", tx)
